@@ -98,32 +98,25 @@ theorem Row.restrict_of_bounds {y : Row n} {vs : List Nat} (h : ∀ v, (y.get v)
     | none => rfl
     | some t => exact absurd (h v (by simp [hy])) hv
 
-/-- `remember` with an exact annotation gives back the left solution on the relevant variables -/
+/-- `remember` with an annotation that lists what the sub-pattern may bind, and is exact where the context binds,
+    gives back the left solution on the relevant variables -/
 theorem restrict_scope {μ0 μ : Row n} {rel ann must may : List Nat}
-    (hs : scopeOK rel ann must may = true) (hb : BoundsOK μ must may) :
+    (hs : RememberOK μ0 rel ann must may) (hb : BoundsOK μ must may) :
     ∀ v ∈ rel, ((μ0.merge μ).restrict ann).get v = μ.get v := by
   intro v hv
-  simp only [scopeOK, List.all_eq_true, Bool.and_eq_true, Bool.or_eq_true, Bool.not_eq_eq_eq_not,
-    Bool.not_true, List.contains_eq_mem, decide_eq_true_eq, decide_eq_false_iff_not] at hs
-  obtain ⟨h1, h2⟩ := hs v hv
+  obtain ⟨h2, h1⟩ := hs v hv
   rw [Row.get_restrict, Row.get_merge]
   by_cases hann : v ∈ ann
-  · have hm : v ∈ must := by
-      rcases h1 with h | h
-      · exact absurd hann h
-      · exact h
-    have := hb.1 v hm
-    cases hμ : μ.get v with
-    | none => rw [hμ] at this; cases this
-    | some y => simp [hann]
-  · have hnm : v ∉ may := by
-      rcases h2 with h | h
-      · exact h
-      · exact absurd h hann
-    have : μ.get v = none := by
+  · rcases h1 with h0 | h1
+    · simp [hann, h0]
+    · have := hb.1 v (h1 hann)
+      cases hμ : μ.get v with
+      | none => rw [hμ] at this; cases this
+      | some y => simp [hann]
+  · have : μ.get v = none := by
       cases hμ : μ.get v with
       | none => rfl
-      | some y => exact absurd (hb.2 v (by simp [hμ])) hnm
+      | some y => exact absurd (h2 (hb.2 v (by simp [hμ]))) hann
     simp [hann, this]
 
 /-- evalMinus: right side without pushed-in bindings, each side compared on the variables it binds itself
@@ -131,7 +124,7 @@ theorem restrict_scope {μ0 μ : Row n} {rel ann must may : List Nat}
 theorem pushdown_minus {μ0 : Row n} {A B XA XB : List (Row n)} {vs mustA mayA mayB : List Nat}
     {p2vars : Option (List Nat)}
     (ha : XA.Perm (push μ0 A)) (hb : XB.Perm B)
-    (hs : scopeOK mayB vs mustA mayA = true) (hba : ∀ μ ∈ A, BoundsOK μ mustA mayA)
+    (hs : RememberOK μ0 mayB vs mustA mayA) (hba : ∀ μ ∈ A, BoundsOK μ mustA mayA)
     (hbb : ∀ y ∈ B, ∀ v, (y.get v).isSome = true → v ∈ mayB)
     (hp2 : ∀ vs2, p2vars = some vs2 → ∀ v ∈ mayB, v ∈ vs2) :
     (XA.filter fun x => (XB.map fun y => y.rememberOpt p2vars).all fun y =>
